@@ -91,6 +91,8 @@ pub struct GenOpts {
 ///  reorder    – contigs absent / extra / reordered per sample
 ///  manysamples– > 50 samples of small contigs (several metadata batches; > 50 entries per group)
 ///  manyorphans– > 800 tiny novel contigs (raw groups with several packs)
+///  tandem     – reference with alternating ordinary and tandem-repeat blocks (period 4..20): low-complexity reference segments are
+///               stored plain (repetitiveness >= 1/2), ordinary ones tuple-packed, in the same compression round
 pub fn generate(o: &GenOpts) -> Vec<Sample> {
     let mut r = util::rng(o.seed);
     let mut base: Vec<Vec<u8>> = (0..o.n_chrom)
@@ -99,6 +101,27 @@ pub fn generate(o: &GenOpts) -> Vec<Sample> {
             rand_seq(&mut r, l.max(1))
         })
         .collect();
+    if o.kind == "tandem" {
+        for b in base.iter_mut() {
+            let total = b.len();
+            let mut q: Vec<u8> = Vec::with_capacity(total);
+            let mut ordinary = true;
+            while q.len() < total {
+                let blk = r.gen_range(150..420usize);
+                if ordinary {
+                    q.extend(rand_seq(&mut r, blk));
+                } else {
+                    let unit = { let n = r.gen_range(4..=20usize); rand_seq(&mut r, n) };
+                    for j in 0..blk {
+                        q.push(unit[j % unit.len()]);
+                    }
+                }
+                ordinary = !ordinary;
+            }
+            q.truncate(total);
+            *b = q;
+        }
+    }
     // make the reference itself slightly repetitive: copy a block inside chromosome 0
     if base[0].len() > 400 && r.gen_bool(0.5) {
         let blk: Vec<u8> = base[0][50..250].to_vec();
